@@ -73,10 +73,16 @@ const (
 	shCallIndirectLoop
 	shHostEntered
 	shTailIntoLoop
+	shBrIfBackEdge
+	shBrTableBackEdge
+	shBrTableDefaultBackEdge
+	shCrossModuleLoop
+	shCrossModuleNestedLoop
 	numShapes
 )
 
-var shapeNames = []string{"loop", "nested-loops", "br_table-reentry", "loop-around-recursion", "self-return_call", "mutual-return_call", "return_call_indirect", "call_indirect-in-loop", "loop-entered-from-host-callback", "return_call-into-looping-function"}
+var shapeNames = []string{"loop", "nested-loops", "br_table-reentry", "loop-around-recursion", "self-return_call", "mutual-return_call", "return_call_indirect", "call_indirect-in-loop", "loop-entered-from-host-callback", "return_call-into-looping-function",
+	"loop-with-br_if-back-edge", "loop-with-br_table-back-edges", "loop-with-br_table-default-back-edge", "loop-in-imported-module-function", "loop-in-callee-of-imported-module-function"}
 
 // buildGuest returns the module and the number of host-call sites in the cycle.
 func buildGuest(shape int, yield bool, pad int) ([]byte, int) {
@@ -208,6 +214,41 @@ func buildGuest(shape int, yield bool, pad int) ([]byte, int) {
 		tick(s, 1)
 		s.Br(0).End()
 		m.AddFunc(nil, nil, nil, s.B, "spin")
+	case shBrIfBackEdge:
+		c := &wasmb.Code{}
+		enter(c)
+		c.Loop(wasmb.BlockVoid)
+		tick(c, 1)
+		padding(c)
+		c.I32Const(1).BrIf(0)
+		c.End()
+		m.AddFunc(nil, nil, nil, c.B, "run")
+	case shBrTableBackEdge:
+		// every back edge is a br_table arm (switch-in-a-loop state machine)
+		c := &wasmb.Code{}
+		enter(c)
+		c.Loop(wasmb.BlockVoid)
+		tick(c, 1)
+		padding(c)
+		c.LocalGet(0).I32Const(1).I32Add().LocalTee(0).I32Const(3).I32And().BrTable([]uint32{0, 0, 0}, 0)
+		c.End()
+		m.AddFunc(nil, nil, i32, c.B, "run")
+	case shBrTableDefaultBackEdge:
+		c := &wasmb.Code{}
+		enter(c)
+		c.Loop(wasmb.BlockVoid)
+		tick(c, 1)
+		padding(c)
+		c.I32Const(0).BrTable(nil, 0)
+		c.End()
+		m.AddFunc(nil, nil, nil, c.B, "run")
+	case shCrossModuleLoop, shCrossModuleNestedLoop:
+		// run calls the imported b.f; buildGuestB provides it
+		bf := m.ImportFunc("b", "f", nil, nil)
+		c := &wasmb.Code{}
+		padding(c)
+		c.Call(bf)
+		m.AddFunc(nil, nil, nil, c.B, "run")
 	case shTailIntoLoop:
 		c := &wasmb.Code{}
 		enter(c)
@@ -223,14 +264,48 @@ func buildGuest(shape int, yield bool, pad int) ([]byte, int) {
 	return m.Encode(), sites
 }
 
+// buildGuestB: the module "b" for the cross-module shapes: f loops itself
+// (shCrossModuleLoop) or calls g which loops (shCrossModuleNestedLoop).
+func buildGuestB(shape int, yield bool, pad int) ([]byte, int) {
+	m := &wasmb.Module{}
+	i32 := []wasmb.ValType{wasmb.I32}
+	h := m.ImportFunc("env", "h", i32, nil)
+	sites := 0
+	loop := func() *wasmb.Code {
+		c := &wasmb.Code{}
+		c.I32Const(0).Call(h)
+		c.Loop(wasmb.BlockVoid)
+		for i := 0; i < pad; i++ {
+			c.I32Const(int32(i)).Drop()
+		}
+		if yield {
+			c.I32Const(1).Call(h)
+			sites++
+		}
+		c.Br(0).End()
+		return c
+	}
+	if shape == shCrossModuleLoop {
+		m.AddFunc(nil, nil, nil, loop().B, "f")
+	} else {
+		// f = func 1 calls g = func 2
+		m.AddFunc(nil, nil, nil, (&wasmb.Code{}).Call(2).B, "f")
+		m.AddFunc(nil, nil, nil, loop().B, "g")
+	}
+	return m.Encode(), sites
+}
+
 const (
 	causeCancel = iota
 	causeDeadline
 	causeClose
 	causeRuntimeClose
+	causeCancelCause
+	causeTimeoutCause
+	numCauses
 )
 
-var causeNames = []string{"cancel", "deadline", "close-from-goroutine", "runtime-close"}
+var causeNames = []string{"cancel", "deadline", "close-from-goroutine", "runtime-close", "cancel-with-custom-cause", "timeout-with-custom-cause"}
 
 type scenario struct {
 	Shape  string `json:"shape"`
@@ -252,8 +327,8 @@ func (c07) Run(t *tape.Tape, cfg sim.Config) (res sim.Result) {
 	shape := t.Choose(numShapes)
 	yield := cfg.Class == "yielding"
 	pad := tape.Pick(t, []int{0, 1, 7, 40})
-	cause := t.Choose(4)
-	already := t.Chance(1, 10) && (cause == causeCancel || cause == causeDeadline)
+	cause := t.Choose(numCauses)
+	already := t.Chance(1, 10) && (cause == causeCancel || cause == causeDeadline || cause == causeCancelCause || cause == causeTimeoutCause)
 	k := 1 + t.Choose(6)
 	code := uint32(1 + t.Choose(200))
 	sc := scenario{Shape: shapeNames[shape], Yield: yield, Pad: pad, Cause: causeNames[cause], K: k, Code: code}
@@ -270,6 +345,10 @@ func (c07) Run(t *tape.Tape, cfg sim.Config) (res sim.Result) {
 	res.Logf("scenario %+v", sc)
 	fmt.Fprintf(os.Stderr, "C07 scenario (engine %s): %+v\n", cfg.Engine, sc)
 	bin, sites := buildGuest(shape, yield, pad)
+	var binB []byte
+	if shape == shCrossModuleLoop || shape == shCrossModuleNestedLoop {
+		binB, sites = buildGuestB(shape, yield, pad)
+	}
 
 	bg := context.Background()
 	var rc wazero.RuntimeConfig
@@ -288,11 +367,14 @@ func (c07) Run(t *tape.Tape, cfg sim.Config) (res sim.Result) {
 	entered := make(chan struct{}, 1)
 	var callCtx context.Context
 	var cancel context.CancelFunc
+	var cancelCause context.CancelCauseFunc
 	fire := func() {
 		switch cause {
 		case causeCancel:
 			cancel()
-		case causeDeadline:
+		case causeCancelCause:
+			cancelCause(errors.New("application-specific reason"))
+		case causeDeadline, causeTimeoutCause:
 			// the deadline is part of callCtx; nothing to do but wait
 		case causeClose:
 			go mod.CloseWithExitCode(bg, code)
@@ -345,19 +427,38 @@ func (c07) Run(t *tape.Tape, cfg sim.Config) (res sim.Result) {
 	if err != nil {
 		panic(err)
 	}
+	if binB != nil {
+		cmB, err := rt.CompileModule(bg, binB)
+		if err != nil {
+			panic(err)
+		}
+		if _, err = rt.InstantiateModule(bg, cmB, wazero.NewModuleConfig().WithName("b")); err != nil {
+			panic(err)
+		}
+	}
 	mod, err = rt.Instantiate(bg, bin)
 	if err != nil {
 		panic(fmt.Sprintf("harness: guest does not instantiate: %v", err))
 	}
 	switch cause {
-	case causeDeadline:
+	case causeDeadline, causeTimeoutCause:
 		d := time.Duration(1+t.Choose(4)) * time.Millisecond
 		if yield && !already {
 			d = time.Duration(2+t.Choose(6)) * time.Millisecond
 		}
-		callCtx, cancel = context.WithTimeout(bg, d)
+		if cause == causeTimeoutCause {
+			callCtx, cancel = context.WithTimeoutCause(bg, d, errors.New("application-specific timeout reason"))
+		} else {
+			callCtx, cancel = context.WithTimeout(bg, d)
+		}
 		if already {
 			<-callCtx.Done()
+		}
+	case causeCancelCause:
+		callCtx, cancelCause = context.WithCancelCause(bg)
+		cancel = func() { cancelCause(nil) }
+		if already {
+			cancelCause(errors.New("application-specific reason"))
 		}
 	default:
 		callCtx, cancel = context.WithCancel(bg)
@@ -392,9 +493,9 @@ func (c07) Run(t *tape.Tape, cfg sim.Config) (res sim.Result) {
 	}
 	want := code
 	switch cause {
-	case causeCancel:
+	case causeCancel, causeCancelCause:
 		want = sys.ExitCodeContextCanceled
-	case causeDeadline:
+	case causeDeadline, causeTimeoutCause:
 		want = sys.ExitCodeDeadlineExceeded
 	case causeRuntimeClose:
 		want = 0
